@@ -27,14 +27,90 @@ RULE = ("one evaluation = one generated history (1-4 forwarding threads; setup o
         "non-trivial = at least 3 operation kinds and at least one send or PIT entry; distinct by MD5 of the operation list")
 
 
+# No wall-clock limit decides a verdict (docs/C16.md). A child process is stopped early only on a bound that does not depend on the
+# load of the machine: the CPU time it consumed itself. STALL_CPU: CPU seconds one single operation of a history may consume (the
+# operation log <trace>.ops, written before every operation, did not grow meanwhile; an operation normally takes microseconds) - a
+# proven hang of the code under test, reported with its history. CPU_BUDGET: CPU seconds a whole run may consume (a thorough run
+# needs about 100). The wall-clock cap only ever produces a note ("inconclusive").
+STALL_CPU = 150.0
+CPU_BUDGET = 7200.0
+WALL_CAP = 6 * 3600.0
+
+
+def _cpu_seconds(pid):
+    try:
+        f = open("/proc/%d/stat" % pid).read().rsplit(")", 1)[1].split()
+        return (int(f[11]) + int(f[12])) / float(os.sysconf("SC_CLK_TCK"))
+    except Exception:
+        return None
+
+
+def run_bounded(cmd, env=None, stdin_text=None, progress=None, outfile=None):
+    """run cmd to completion; returns (rc, output, why) with why in (None, 'hang', 'cpu-budget', 'wall-cap')"""
+    import subprocess, tempfile, time as _t
+    of = tempfile.TemporaryFile(mode="w+", errors="replace")
+    inf = None
+    if stdin_text is not None:
+        inf = tempfile.TemporaryFile(mode="w+")
+        inf.write(stdin_text); inf.flush(); inf.seek(0)
+    p = subprocess.Popen(cmd, env=env, stdin=inf if inf else subprocess.DEVNULL, stdout=of, stderr=subprocess.STDOUT)
+    t0 = _t.time()
+    last_size, cpu_at_change, why = -1, 0.0, None
+    while True:
+        try:
+            p.wait(timeout=1.0)
+            break
+        except subprocess.TimeoutExpired:
+            pass
+        cpu = _cpu_seconds(p.pid)
+        if cpu is None:
+            continue
+        if progress:
+            try:
+                size = os.path.getsize(progress)
+            except OSError:
+                size = 0
+            if size != last_size:
+                last_size, cpu_at_change = size, cpu
+            elif cpu - cpu_at_change >= STALL_CPU:
+                why = "hang"
+        if why is None and cpu >= CPU_BUDGET:
+            why = "cpu-budget"
+        if why is None and _t.time() - t0 >= WALL_CAP:
+            why = "wall-cap"
+        if why:
+            p.kill(); p.wait()
+            break
+    of.seek(0)
+    out = of.read()
+    of.close()
+    if inf:
+        inf.close()
+    return (p.returncode if why is None else 124), out, why
+
+
+INCONCLUSIVE = "inconclusive"   # a run stopped by the CPU budget or the wall-clock cap without a proven hang: a note, never a verdict
+
+
 def run_harness(R, n, seed, tag="", ops=None):
+    """returns (trace, output); trace is None if the harness aborted or provably hung (output starts with HANG then), and
+    INCONCLUSIVE if it was stopped without either (the caller writes a note)"""
     exe = os.path.join(R.work, "h.test")
     trace = os.path.join(R.work, "trace" + tag)
     env = vlib.goenv()
     env.update(VERIF_SEED=str(seed), VERIF_N=str(n), VERIF_OUT=trace)
     if ops:
         env["VERIF_OPS"] = ops
-    rc, out = vlib.sh([exe, "-test.run", "TestTrace", "-test.count=1"], env=env, timeout=1500)
+    try:
+        os.remove(trace + ".ops")
+    except OSError:
+        pass
+    rc, out, why = run_bounded([exe, "-test.run", "TestTrace", "-test.count=1"], env=env, progress=trace + ".ops")
+    if why == "hang":
+        return None, "HANG: one operation consumed more than %d CPU seconds without finishing\n%s" % (STALL_CPU, out)
+    if why:
+        R.notes.append("harness run%s stopped by the %s (no verdict drawn from it)" % (tag, why))
+        return INCONCLUSIVE, out
     if rc != 0:
         return None, out
     return trace, out
@@ -57,7 +133,8 @@ def report_crash(R, label, trace, out):
     """an abort of the harness (panic in the forwarder) is reported with the history that caused it"""
     hdr, ops = crashed_history(trace)
     m = re.search(r"(panic: [^\n]*|fatal error: [^\n]*)", out)
-    why = m.group(1)[:200] if m else "the Go harness aborted"
+    hung = out.startswith("HANG:")
+    why = m.group(1)[:200] if m else ("it did not return: " + out.split("\n")[0][6:] if hung else "the Go harness aborted")
     last = ops[-1] if ops else "?"
     f = last.split(" ")
     kind = f[0]
@@ -70,13 +147,13 @@ def report_crash(R, label, trace, out):
     def aborts(cand):
         open(tmp, "w").write(ops_text(hdr, cand))
         tr2, _ = run_harness(R, 1, 1, tag="-crash", ops=tmp)
-        return tr2 is None
+        return tr2 is None  # (INCONCLUSIVE is not an abort)
     try:
-        if ops and aborts(ops):
+        if ops and not hung and aborts(ops):
             ops = vlib.ddmin(ops, aborts, budget=40)
     except Exception:
         pass
-    R.oracle_failure("harness-crash:%s%s" % (kind, detail),
+    R.oracle_failure("harness-%s:%s%s" % ("hang" if hung else "crash", kind, detail),
                      "the implementation aborted (%s) while executing `%s` after %d earlier operations of %s" % (why, last, max(0, len(ops) - 1), label),
                      dict(trace=label, threads=hdr, ops=ops, output=out[-1500:],
                           replay_hint="VERIF_OPS=<file with: case 0 / these header lines / these operations> go1.26 test -tags verif -run TestTrace ./harness/fwcore"))
@@ -126,7 +203,9 @@ def ops_text(hdr, ops):
 
 
 def runner_on(exe, trace, prop):
-    rc, out = vlib.sh([exe, prop], stdin=open(trace, errors="replace").read(), timeout=1500)
+    rc, out, why = run_bounded([exe, prop], stdin_text=open(trace, errors="replace").read())
+    if why:
+        out += "\nSTOPPED %s\n" % why
     return rc, out
 
 
@@ -136,7 +215,7 @@ def shrink(R, exe, prop, threads, ops, sig_prefix, budget=60):
     def fails(cand):
         open(tmp, "w").write(ops_text(threads, cand))
         tr, _ = run_harness(R, 1, 1, tag="-shrink", ops=tmp)
-        if tr is None:
+        if tr is None or tr == INCONCLUSIVE:
             return False
         rc, out = runner_on(exe, tr, prop)
         return any(l.startswith("ORACLE " + prop) and l.split(" ", 5)[4].startswith(sig_prefix) for l in out.split("\n"))
@@ -165,11 +244,11 @@ def run(R, prop, extra_assumptions=()):
     if hok:
         probe = os.path.join(R.work, "consts.probe")
         env = vlib.goenv(); env.update(VERIF_OUT=probe)
-        rc, out = vlib.sh([hbin, "-test.run", "TestConsts", "-test.count=1"], env=env, timeout=300)
+        rc, out, _why = run_bounded([hbin, "-test.run", "TestConsts", "-test.count=1"], env=env)   # (not finished: a note, below)
         if rc != 0:
             R.notes.append("constant probes (harness TestConsts) did not finish: " + out.strip()[-200:])
     rc, out = vlib.sh([sys.executable, os.path.join(vlib.VERIF, "translators", "fw", "consts.py"), probe,
-                       os.path.join(vlib.COQ, "Fw", "GenConsts.reference"), os.path.join(vlib.COQ, "Fw", "GenConsts.v")], timeout=120)
+                       os.path.join(vlib.COQ, "Fw", "GenConsts.reference"), os.path.join(vlib.COQ, "Fw", "GenConsts.v")], timeout=3600)   # (failure: a note, below)
     notes_of(out)
     if rc != 0:
         R.notes.append("translators/fw/consts.py: " + out.strip()[-200:] + " (committed GenConsts.v kept)")
@@ -201,6 +280,8 @@ def run(R, prop, extra_assumptions=()):
         tr, out = run_harness(R, 1, 1, tag="-corpus%d" % i, ops=c)
         if tr is None:
             report_crash(R, "corpus case " + os.path.basename(c), os.path.join(R.work, "trace-corpus%d" % i), out)
+        elif tr == INCONCLUSIVE:
+            pass
         else:
             traces.append(("corpus:" + os.path.basename(c), tr))
     n = 400 if R.quick else 12000
@@ -208,7 +289,8 @@ def run(R, prop, extra_assumptions=()):
     if tr is None:
         report_crash(R, "the generated stream (seed %d)" % R.seed, os.path.join(R.work, "trace"), out)
         return R.finish()
-    traces.append(("generated", tr))
+    if tr != INCONCLUSIVE:
+        traces.append(("generated", tr))
 
     kinds = {}
     total = nontriv = 0
@@ -221,7 +303,10 @@ def run(R, prop, extra_assumptions=()):
                 k = l.split(" ")[1]
                 kinds[k] = kinds.get(k, 0) + 1
         rc, out = runner_on(exe, tr, prop)
-        if "DONE" not in out:
+        if "STOPPED wall-cap" in out:
+            R.notes.append("runner stopped by the wall-clock cap on %s (no verdict drawn from it)" % label)
+        elif "DONE" not in out:
+            # it exited by itself without finishing, or exceeded its CPU budget (CPU time of the process: independent of the load)
             R.proof_problems.append("runner did not finish on %s: %s" % (label, out[-300:]))
         seen_sig = {}
         for l in out.split("\n"):
@@ -274,7 +359,10 @@ def scope_classification(R, exe, kinds):
     h = os.path.join(R.work, "h.test")
     tr = os.path.join(R.work, "trace-scope")
     env = vlib.goenv(); env.update(VERIF_OUT=tr)
-    rc, out = vlib.sh([h, "-test.run", "TestScope", "-test.count=1"], env=env, timeout=300)
+    rc, out, why = run_bounded([h, "-test.run", "TestScope", "-test.count=1"], env=env)
+    if why:
+        R.notes.append("scope harness stopped by the %s (no verdict drawn from it; scope classification not evaluated in this run)" % why)
+        return
     if rc != 0:
         R.oracle_failure("harness-crash:scope", "the scope harness aborted", dict(output=out[-2000:]))
         return
@@ -283,21 +371,23 @@ def scope_classification(R, exe, kinds):
     # cross-check input: what the go/ast reading of the constructors predicts (never an alarm)
     astf = os.path.join(R.work, "scope-ast")
     rc, out = vlib.sh([vlib.GO, "run", os.path.join(vlib.VERIF, "translators", "fw", "scope", "main.go"), vlib.REPO],
-                      env=vlib.goenv(), timeout=300, cwd=vlib.VERIF)
+                      env=vlib.goenv(), timeout=3600, cwd=vlib.VERIF)   # (failure or timeout: a note, below)
     if rc == 0:
         open(astf, "w").write(out)
     else:
         astf = "-"
         R.notes.append("translator: go/ast cross-check of the scope statements could not read the tree; the observed table is used")
     rc, out = vlib.sh([sys.executable, os.path.join(vlib.VERIF, "translators", "fw", "scope_table.py"), tr,
-                       os.path.join(vlib.COQ, "FwScope", "GenScope.reference"), astf, os.path.join(vlib.COQ, "FwScope", "GenScope.v")], timeout=120)
+                       os.path.join(vlib.COQ, "FwScope", "GenScope.reference"), astf, os.path.join(vlib.COQ, "FwScope", "GenScope.v")], timeout=3600)
     inc = []
     for l in out.split("\n"):
         if l.startswith("note: "):
             R.notes.append(l[6:]); inc.append(l[6:].split(";")[0])
     if inc:
         R.coverage.setdefault("translation_incomplete", []).extend(inc)
-    if rc != 0:
+    if rc == 124:
+        R.notes.append("translators/fw/scope_table.py did not finish in an hour (committed GenScope.v kept)")
+    elif rc != 0:
         R.proof_problems.append("translators/fw/scope_table.py failed: " + out.strip()[-300:])
     # prove the classification theorems over the observed table (separate family: cannot affect C01/C02)
     proved = R.prove("FwScope", props_pid="C09")
@@ -310,7 +400,10 @@ def scope_classification(R, exe, kinds):
         R.proof_problems.append("extraction/OCaml build of the FwScope model failed")
         R.log(log[-1500:])
         return
-    rc, out = vlib.sh([sexe], stdin=open(tr, errors="replace").read(), timeout=300)
+    rc, out, why = run_bounded([sexe], stdin_text=open(tr, errors="replace").read())
+    if why == "wall-cap":
+        R.notes.append("scope runner stopped by the wall-clock cap (no verdict drawn from it)")
+        return
     for l in out.split("\n"):
         if l.startswith("ORACLE C09 scope"):
             p = l.split(" ", 5)
@@ -342,6 +435,8 @@ def replay(R, path):
     f = os.path.join(R.work, "replay-ops")
     open(f, "w").write(ops_text(threads, ops))
     tr, out = run_harness(R, 1, 1, tag="-replay", ops=f)
+    if tr == INCONCLUSIVE:
+        print("inconclusive: the harness run was stopped (see notes)"); return 2
     if tr is None:
         print(out[-3000:]); return 1
     rc, out = runner_on(exe, tr, R.pid)
